@@ -27,6 +27,9 @@ ASSUMPTIONS = [
 ]
 
 
+RULE += " Round 9: each one/gap case analyses its line-shifted twin first, releases it, and compiles the case proper until its code object lands on the twin's address (counters twin_address_*)."
+
+
 def legs(tier):
     from vlib.runner import Leg
     out = []
